@@ -104,6 +104,8 @@ func symxIsSymbolic() bool { return false }
 
 func symxNoWitnessReplay() {}
 
+func symxEnvLog() []string { return nil }
+
 func symxRecord(label string, vals ...any) {
 	s := "rec:" + label + "="
 	for i, v := range vals {
